@@ -355,6 +355,7 @@ def check(P, R):
     check_no_clear_after_merge(P, R, 'C11.d')
     check_hooks_only_keeps_route(P, R, 'C11.b')
     check_name_after_registration(P, R, 'C11.c')
+    check_named_is_mounted(P, R, 'C11.c')
     # ---- e
     c01.check_idx_pairing(P, R, 'C11.e')
     # ---- f
@@ -396,6 +397,34 @@ def check(P, R):
             and 'HookTypes.SIMPLE' in src(lp)
     R.ob('C11.f', hd, fors[0] if fors else hd.node, ok, text='handler fires hooks in list order with path[:1 + pos]', detail='' if ok else
          'route hooks are not invoked outermost-first with the matched prefix')
+    # the positions collected by the router count characters of the string that was routed: the prefix is cut from that very string
+    hn = P.func(f'{OM}:Ombott._handle')
+    routed = None
+    for c in walk_shallow(hn.node):
+        if isinstance(c, ast.Call) and call_attr(c) == 'to_route' and c.args:
+            routed = T.xsrc(hn, c.args[0], hn.cfg.node_of_stmt(c)[0])
+    R.require(routed is not None, '_handle: the to_route(...) call was not found')
+
+    def _canon(t, f):
+        first = f.params[0] if f.params else 'self'
+        for pre in (first + '.', 'self.', 'app.'):
+            if t.startswith(pre):
+                return t[len(pre):]
+        return t
+    for c in walk_shallow(hd.node):
+        if isinstance(c, ast.Subscript) and isinstance(c.slice, ast.Slice) and c.slice.lower is None and c.slice.upper is not None and isinstance(c.ctx, ast.Load):
+            ns = hd.cfg.node_of_stmt(c)
+            if not ns:
+                continue
+            up = T.xsrc(hd, c.slice.upper, ns[0]).replace(' ', '')
+            if not (up.startswith('1+') or up.endswith('+1')):
+                continue
+            cut = T.xsrc(hd, c.value, ns[0])
+            okc = _canon(cut, hd) == _canon(routed, hn)
+            R.ob('C11.f', hd, c, okc, text=f'`{short(c)}`: the prefix is cut from the routed string `{_canon(routed, hn)}`', detail='' if okc else
+                 f'`{short(c)}` cuts `{cut}` at a position that counts characters of `{routed}` (what _handle gave to the router): where the two strings differ '
+                 f'(leading slashes are normalised by request.path) the hook receives a shifted prefix',
+                 why='a route hook fires with the matched path prefix', key_extra='prefix-of-routed')
 
 
 def check_name_after_registration(P, R, rid):
@@ -419,6 +448,25 @@ def check_name_after_registration(P, R, rid):
              f'`{short(st)}` binds the name before `{short(late[0])}`, which raises when the method is already registered on the route: the rejected add leaves the new name '
              f'bound - router[name] resolves, and remove(name=...) deletes the route that was there before',
              why='a rejected registration leaves the router as it was', key_extra='name-before-reject')
+
+
+def check_named_is_mounted(P, R, rid):
+    """the Route bound to a name is the one `_add` returns - the mounted object (the tree's own when the rule was already there), not the freshly parsed one"""
+    f = P.func(f'{RR}:RadiRouter._add')
+    g, rd = f.cfg, f.rd
+    stores = [st for st in walk_shallow(f.node) if isinstance(st, ast.Assign) and any(
+        isinstance(t, ast.Subscript) and dotted(t.value) == 'self.named_routes' for t in st.targets)]
+    rets = [n for n in g.nodes if n.kind == 'stmt' and isinstance(n.ast, ast.Return) and isinstance(n.ast.value, ast.Name)]
+    for st in stores:
+        if not isinstance(st.value, ast.Name) or not rets:
+            continue
+        sn = g.node_of_stmt(st)[0]
+        nm = st.value.id
+        ok = all(r.ast.value.id == nm and (not g.can_reach(sn, r) or rd.same_defs(sn, r, nm)) for r in rets)
+        R.ob(rid, f, st, ok, text=f'`{short(st)}`: the named route is the route that is mounted and returned', detail='' if ok else
+             f'`{short(st)}` binds the name to `{nm}` as it is at that point, `{short(rets[0].ast)}` hands out a later binding: when the rule is already mounted the name '
+             f'points to the freshly parsed, never mounted Route - router[name] and the route that resolves (and builds URLs) are different objects',
+             why='lookups by name and by rule agree', key_extra='named-is-mounted')
 
 
 def check_hooks_only_keeps_route(P, R, rid):
@@ -622,6 +670,32 @@ def check_pairing(P, R):
              f'after a prefix (wildcard) removal the name cleanup is not given the list of removed patterns `{it_.id}`: named routes under the prefix stay in '
              f'named_routes and router[name] returns a route that no longer resolves',
              why='lookups by name agree with a freshly built router', key_extra='prefix-names')
+    # prefix removal: the registry is filtered by the very prefix the tree was cut at - the rule given to radidict.remove without its trailing `*`
+    for c in [x for x in walk_shallow(rm.node) if isinstance(x, ast.Call) and call_attr(x) == 'startswith' and x.args]:
+        ns_ = g.node_of_stmt(c)
+        if not ns_ or not rms or not rms[0].args:
+            continue
+        tree_arg = rms[0].args[0]
+        tn = g.node_of_stmt(rms[0])[0]
+        a = c.args[0]
+        # `p = p[:-1]` before the filter: follow the single definition
+        at = ns_[0]
+        hops = 0
+        while isinstance(a, ast.Name) and hops < 4:
+            ds = [d for d in rd.at(at, a.id)]
+            if len(ds) != 1 or ds[0].value is None or ds[0].kind != 'assign':
+                break
+            a, at = ds[0].value, ds[0].node
+            hops += 1
+        okp = isinstance(a, ast.Subscript) and isinstance(a.slice, ast.Slice) and a.slice.lower is None and a.slice.step is None and src(a.slice.upper) == '-1' \
+            and isinstance(a.value, ast.Name) and isinstance(tree_arg, ast.Name) and a.value.id == tree_arg.id and rd.same_defs(tn, at, tree_arg.id)
+        if not okp and not (isinstance(a, ast.Subscript) or isinstance(a, ast.Call)):
+            R.undecided('C11.d', rm, c, 'remove', f'the prefix `{short(a)}` the routes index is filtered by has no recogniser')
+            continue
+        R.ob('C11.d', rm, c, okp, text=f'`{short(c)}`: the index is filtered by the prefix the tree was cut at (`{src(tree_arg)}` without `*`)', detail='' if okp else
+             f'the routes index is filtered by `{short(a)}`, the tree is cut at `{src(tree_arg)}` without its `*`: where the two differ, routes leave the index (and lose '
+             f'their names) while they stay mounted in the tree, or the reverse',
+             why='lookups by name and by rule agree with a freshly built router', key_extra='prefix-same-as-tree')
     # _remove_named_routers removes by pattern membership
     rn = cls_.methods['_remove_named_routers']
     ok = any((isinstance(x, ast.Call) and dotted(x.func) == 'self.named_routes.pop') or (isinstance(x, ast.Delete) and 'self.named_routes[' in src(x))
